@@ -630,4 +630,217 @@ theorem inv_nvUndelegate {s s' : St} {c sd val : Addr} {d : Denom} {amt : Int} {
     have hc' : s.created = false := hc
     rw [hc'] at h1; simp at h1
 
+theorem inv_init {s s' : St} {v : Variant} {funder owner : Addr} {funds : Int} {sz : Bool} {st : Int} {ez : Bool} {en : Int}
+    (hI : Inv s) (ho : funder ≠ lock) (h : doInit s v funder owner funds sz st ez en = .ok s') : Inv s' := by
+  simp only [doInit] at h
+  split at h; · simp at h
+  rename_i hnc
+  split at h; · simp at h
+  rename_i hf
+  split at h; · simp at h
+  split at h; · simp at h
+  obtain ⟨b, hb, h⟩ := Bank.bind_ok h
+  simp only [Res.ok.injEq] at h
+  subst h
+  have hf0 : 0 ≤ funds := by omega
+  have hnil : s.scUnb = [] := hI.pre (by simpa using hnc)
+  have fL : b.bal lock fee = s.bank.bal lock fee + funds := by
+    split at hb
+    · rename_i hz; simp only [Res.ok.injEq] at hb; subst hb; omega
+    · obtain ⟨_, _, e⟩ := Bank.send_ok hb
+      subst e
+      have : ¬ (lock = funder) := fun c => ho c.symm
+      simp [Bank.credit_bal, this]
+  have fS : ∀ w, b.bal lock (shareOf w) = s.bank.bal lock (shareOf w) := by
+    intro w
+    have sfw : shareOf w ≠ fee := shareOf_ne_fee w
+    split at hb
+    · simp only [Res.ok.injEq] at hb; subst hb; rfl
+    · obtain ⟨_, _, e⟩ := Bank.send_ok hb
+      subst e; simp [Bank.credit_bal, sfw]
+  have hS : sumShares b s.vals = sumShares s.bank s.vals := sumShares_congr _ _ _ (fun w _ => fS w)
+  have fP : b.bal "plock" bond = s.bank.bal "plock" bond := by
+    split at hb
+    · simp only [Res.ok.injEq] at hb; subst hb; rfl
+    · obtain ⟨_, _, e⟩ := Bank.send_ok hb
+      subst e; simp [Bank.credit_bal, fee, bond]
+  have hsu := sumUnb_nonneg "plock" s.ubds (ubdNonneg hI)
+  have hsh := sumShares_nonneg s.bank s.vals hI.bS0
+  constructor
+  · exact hf0
+  · exact hI.ut0
+  · show (0:Int) ≤ 0; omega
+  · show (0:Int) ≤ 0; omega
+  · show 0 ≤ b.bal lock fee; rw [fL]; have := hI.bL0; omega
+  · intro w; show 0 ≤ b.bal lock (shareOf w); rw [fS]; exact hI.bS0 w
+  · show 0 ≤ b.bal "plock" bond; rw [fP]; exact hI.bP0
+  · exact hI.st0
+  · exact hI.nodup
+  · exact hI.ubd0
+  · exact hI.sc0
+  · intro _ t l _ hl
+    have := lockedAt_le_ol _ _ _ _ _ _ hf0 hl
+    show l - 0 ≤ b.bal lock fee
+    rw [fL]; have := hI.bL0; omega
+  · unfold actualDelegated
+    have := hI.st0; have := hI.bP0
+    cases v
+    · show (0:Int) + 0 ≤ sumShares b s.vals + totalEntries []
+      rw [hS]; simp [totalEntries]; omega
+    · show (0:Int) + 0 ≤ s.stake "plock" + sumUnb "plock" s.ubds + b.bal "plock" bond
+      rw [fP]; omega
+  · intro _ _
+    show (0:Int) + 0 ≤ sumShares b s.vals + sumUnb lock s.scUnb
+    rw [hS, hnil]; simp [sumUnb]; omega
+  · intro u hu
+    have : u ∈ s.scUnb := hu
+    rw [hnil] at this; simp at this
+  · intro p hp
+    have : p ∈ ([] : Entries) := hp
+    simp at this
+  · intro _ t l _ hl
+    have := lockedAt_le_ol _ _ _ _ _ _ hf0 hl
+    unfold custody
+    have := hI.st0; have := hI.bP0; have := hI.bL0
+    cases v
+    · show l ≤ b.bal lock fee + sumShares b s.vals + sumUnb lock s.scUnb
+      rw [fL, hS, hnil]; simp [sumUnb]; omega
+    · show l ≤ b.bal lock fee + b.bal "plock" bond + s.stake "plock" + sumUnb "plock" s.ubds
+      rw [fL, fP]; omega
+  · intro hc; simp at hc
+
+theorem inv_pxUndelegate {s s' : St} {d c sd : Addr} {amt : Int} {e : Ext} (hI : Inv s) (he : extOk e)
+    (h : doPxUndelegate s d c sd amt e = .ok s') : Inv s' := by
+  simp only [doPxUndelegate] at h
+  split at h; · simp at h
+  split at h; · simp at h
+  split at h; · simp at h
+  rename_i hneg
+  split at h; · simp at h
+  rename_i hz
+  split at h; · simp at h
+  split at h; · simp at h
+  rename_i hst
+  simp only [Res.ok.injEq] at h
+  subst h
+  have hamt : 0 < amt := by omega
+  have hpl := proxyOf_ne_lock d
+  have fL : (claim s.bank (proxyOf d) e).bal lock fee = s.bank.bal lock fee := by
+    rw [claim_bal]; simp [Ne.symm hpl]
+  have hS : sumShares (claim s.bank (proxyOf d) e) s.vals = sumShares s.bank s.vals :=
+    sumShares_congr _ _ _ (fun w _ => claim_share _ _ _ _ w)
+  have hsu := sumUnb_append "plock" s.ubds ⟨proxyOf d, amt, s.now + s.ut⟩
+  rcases proxyOf_cases d with hp | hp
+  · -- the lockup's own proxy: stake moves into the unbonding list
+    have fP : (claim s.bank (proxyOf d) e).bal "plock" bond = s.bank.bal "plock" bond + e.rewBond := by
+      rw [claim_bal, hp]; simp [fee, bond]
+    rw [hp] at hst
+    have hsu : sumUnb "plock" (s.ubds ++ [⟨proxyOf d, amt, s.now + s.ut⟩]) = sumUnb "plock" s.ubds + amt := by
+      rw [hsu]; simp [hp]
+    have e1 : (if "plock" = proxyOf d then s.stake (proxyOf d) - amt else s.stake "plock") = s.stake "plock" - amt := by
+      rw [hp]; simp
+    constructor
+    · exact hI.ol0
+    · exact hI.ut0
+    · exact hI.dv0
+    · exact hI.df0
+    · show 0 ≤ (claim s.bank (proxyOf d) e).bal lock fee; rw [fL]; exact hI.bL0
+    · intro w; show 0 ≤ (claim s.bank (proxyOf d) e).bal lock (shareOf w); rw [claim_share]; exact hI.bS0 w
+    · show 0 ≤ (claim s.bank (proxyOf d) e).bal "plock" bond; rw [fP]; have := hI.bP0; have := he.2; omega
+    · show 0 ≤ (if "plock" = proxyOf d then s.stake (proxyOf d) - amt else s.stake "plock")
+      rw [e1]; omega
+    · exact hI.nodup
+    · intro u hu
+      simp only [List.mem_append, List.mem_singleton] at hu
+      rcases hu with hu | hu
+      · exact hI.ubd0 u hu
+      · subst hu; exact ⟨by show 0 ≤ amt; omega, Or.inl hp⟩
+    · exact hI.sc0
+    · intro hc t l ht hl
+      have := hI.cover hc t l ht hl
+      show l - s.DV ≤ (claim s.bank (proxyOf d) e).bal lock fee
+      rw [fL]; exact this
+    · have := hI.tracked
+      have := he.2
+      unfold actualDelegated at *
+      cases hv : s.variant <;> simp only [hv] at *
+      · show s.DV + s.DF ≤ sumShares (claim s.bank (proxyOf d) e) s.vals + totalEntries s.entries
+        rw [hS]; assumption
+      · show s.DV + s.DF ≤ (if "plock" = proxyOf d then s.stake (proxyOf d) - amt else s.stake "plock")
+            + sumUnb "plock" (s.ubds ++ [⟨proxyOf d, amt, s.now + s.ut⟩]) + (claim s.bank (proxyOf d) e).bal "plock" bond
+        rw [fP, hsu, e1]; omega
+    · intro hv hb
+      have hb' : blocked s = false := hb
+      have := hI.liveNv hv hb'
+      show s.DV + s.DF ≤ sumShares (claim s.bank (proxyOf d) e) s.vals + sumUnb lock s.scUnb
+      rw [hS]; exact this
+    · exact hI.scHead
+    · exact hI.headUt
+    · intro hc t l ht hl
+      have := hI.cust hc t l ht hl
+      have := he.2
+      unfold custody at *
+      cases hv : s.variant <;> simp only [hv] at *
+      · show l ≤ (claim s.bank (proxyOf d) e).bal lock fee + sumShares (claim s.bank (proxyOf d) e) s.vals + sumUnb lock s.scUnb
+        rw [fL, hS]; assumption
+      · show l ≤ (claim s.bank (proxyOf d) e).bal lock fee + (claim s.bank (proxyOf d) e).bal "plock" bond
+            + (if "plock" = proxyOf d then s.stake (proxyOf d) - amt else s.stake "plock")
+            + sumUnb "plock" (s.ubds ++ [⟨proxyOf d, amt, s.now + s.ut⟩])
+        rw [fL, fP, hsu, e1]; omega
+    · exact hI.pre
+  · -- somebody else's proxy: nothing of the lockup moves
+    have fP : (claim s.bank (proxyOf d) e).bal "plock" bond = s.bank.bal "plock" bond := by
+      rw [claim_bal, hp]; simp
+    have hsu : sumUnb "plock" (s.ubds ++ [⟨proxyOf d, amt, s.now + s.ut⟩]) = sumUnb "plock" s.ubds := by
+      rw [hsu]; simp [hp]
+    have hstk : (if "plock" = proxyOf d then s.stake (proxyOf d) - amt else s.stake "plock") = s.stake "plock" := by
+      rw [hp]; simp
+    constructor
+    · exact hI.ol0
+    · exact hI.ut0
+    · exact hI.dv0
+    · exact hI.df0
+    · show 0 ≤ (claim s.bank (proxyOf d) e).bal lock fee; rw [fL]; exact hI.bL0
+    · intro w; show 0 ≤ (claim s.bank (proxyOf d) e).bal lock (shareOf w); rw [claim_share]; exact hI.bS0 w
+    · show 0 ≤ (claim s.bank (proxyOf d) e).bal "plock" bond; rw [fP]; exact hI.bP0
+    · show 0 ≤ (if "plock" = proxyOf d then s.stake (proxyOf d) - amt else s.stake "plock")
+      rw [hstk]; exact hI.st0
+    · exact hI.nodup
+    · intro u hu
+      simp only [List.mem_append, List.mem_singleton] at hu
+      rcases hu with hu | hu
+      · exact hI.ubd0 u hu
+      · subst hu; exact ⟨by show 0 ≤ amt; omega, Or.inr hp⟩
+    · exact hI.sc0
+    · intro hc t l ht hl
+      have := hI.cover hc t l ht hl
+      show l - s.DV ≤ (claim s.bank (proxyOf d) e).bal lock fee
+      rw [fL]; exact this
+    · have := hI.tracked
+      unfold actualDelegated at *
+      cases hv : s.variant <;> simp only [hv] at *
+      · show s.DV + s.DF ≤ sumShares (claim s.bank (proxyOf d) e) s.vals + totalEntries s.entries
+        rw [hS]; assumption
+      · show s.DV + s.DF ≤ (if "plock" = proxyOf d then s.stake (proxyOf d) - amt else s.stake "plock")
+            + sumUnb "plock" (s.ubds ++ [⟨proxyOf d, amt, s.now + s.ut⟩]) + (claim s.bank (proxyOf d) e).bal "plock" bond
+        rw [fP, hstk, hsu]; omega
+    · intro hv hb
+      have hb' : blocked s = false := hb
+      have := hI.liveNv hv hb'
+      show s.DV + s.DF ≤ sumShares (claim s.bank (proxyOf d) e) s.vals + sumUnb lock s.scUnb
+      rw [hS]; exact this
+    · exact hI.scHead
+    · exact hI.headUt
+    · intro hc t l ht hl
+      have := hI.cust hc t l ht hl
+      unfold custody at *
+      cases hv : s.variant <;> simp only [hv] at *
+      · show l ≤ (claim s.bank (proxyOf d) e).bal lock fee + sumShares (claim s.bank (proxyOf d) e) s.vals + sumUnb lock s.scUnb
+        rw [fL, hS]; assumption
+      · show l ≤ (claim s.bank (proxyOf d) e).bal lock fee + (claim s.bank (proxyOf d) e).bal "plock" bond
+            + (if "plock" = proxyOf d then s.stake (proxyOf d) - amt else s.stake "plock")
+            + sumUnb "plock" (s.ubds ++ [⟨proxyOf d, amt, s.now + s.ut⟩])
+        rw [fL, fP, hstk, hsu]; omega
+    · exact hI.pre
+
 end Sunrise.C12MV
